@@ -49,7 +49,7 @@ func init() {
 	core.Register(&core.Rule{
 		Name: "R-SUFFIXEND",
 		Doc: "A suffix literal that is cut to the length limit keeps its end. Package literal: the suffix family is every function reachable through static calls from (*Extractor).extractSuffixes. In that family a slice of bytes whose upper bound is computed from the MaxLiteralLen limit and whose lower bound is absent (b[:MaxLiteralLen]: the head is kept) is a violation: the first bytes of a literal are no suffix of what the pattern matches, so the reverse-suffix strategies look for a string that never ends a match and report 'no match'. A cut that keeps the tail (b[len(b)-MaxLiteralLen:]) is the discharged form; the rule counts both. Helpers shared with prefix extraction are part of the family when the suffix walk can reach them - a head cut that is right for prefixes is wrong when reached from here. Pinned tree: expandCaseFoldLiteralTail went through the prefix expansion, which cuts heads (.*(?i:abc<70 digits>) found nothing; regexp [0 77]), and expandCharClass kept the first bytes of a rune longer than the limit ⇒ fixed. Necessary for C17 (a suffix literal is a suffix of every match it stands for), C16 and C12 (limits change speed only).",
-		Min: 2, NeedSSA: true,
+		Min: 1, NeedSSA: true,
 		Run: func(p *core.Prog) *core.RuleResult {
 			res := &core.RuleResult{}
 			kc := core.NewKeyCounter()
